@@ -5,6 +5,7 @@ package sim
 import (
 	"context"
 	"crypto/sha256"
+	"encoding/base64"
 	"encoding/hex"
 	"encoding/json"
 	"fmt"
@@ -886,6 +887,21 @@ var (
 	reShapeKey = regexp.MustCompile(`"(\$[a-z]+)":\{"([a-z_]+)`)
 )
 
+// cursorColumn: "{column=<c>}" for a cursor that decodes to a JSON object naming a column, "" otherwise.
+func cursorColumn(cursor string) string {
+	raw, err := base64.RawURLEncoding.DecodeString(cursor)
+	if err != nil {
+		return ""
+	}
+	var c struct {
+		Column string `json:"column"`
+	}
+	if json.Unmarshal(raw, &c) != nil || c.Column == "" {
+		return ""
+	}
+	return "{column=" + c.Column + "}"
+}
+
 // requestShape: a stable tag for a raw request - method, path without its numbers, the names of its query
 // parameters, the operator:field pairs of a filter body - so that different requests failing for different
 // reasons are reported (and can be listed as known findings) separately.
@@ -903,7 +919,18 @@ func requestShape(op *Op) string {
 		if k == "sort" || k == "expand" {
 			k += "=" + v
 		}
+		if k == "cursor" {
+			k += cursorColumn(v)
+		}
 		names = append(names, k)
+	}
+	if op.Raw.Method == "POST" && strings.Contains(op.Raw.Body, `"cursor"`) {
+		var b struct {
+			Cursor string `json:"cursor"`
+		}
+		if json.Unmarshal([]byte(op.Raw.Body), &b) == nil && b.Cursor != "" {
+			names = append(names, "body.cursor"+cursorColumn(b.Cursor))
+		}
 	}
 	sort.Strings(names)
 	var keys []string
